@@ -100,6 +100,11 @@ def run(ck, fx, cg, tier):
             probs = []
             if rtag != wtag:
                 probs.append("written with tag %s, read back from tag %s" % (wtag, rtag))
+            probs += ["reader: " + x for x in L.seq_problems(rl["term"])]
+            for kind, src, d in layouts[0]["fields"]:
+                bad = [h for h in L.REORDERING if L._has_head(src, h)] if isinstance(src, tuple) else []
+                if bad:
+                    probs.append("writer: the sequence written for `%s` passes through %s" % (fmt_term(src), "/".join(bad)))
             if v == "Boolean":
                 ok = len(wt) == 2 and len(rt) == 2 and wt[1][2] == 1 and rt[1][2] == 1
                 if not ok:
@@ -262,6 +267,23 @@ def _reload(ck, fx, cg):
             names = [callee_name(n) for n, ps in walk_body(hb) if n.get("k") in ("Call", "MethodCall") and n.get("callee")]
             ck.ob("R3.reload", "%s uses Code::labels + Code::label_addresses" % side.rsplit("::", 1)[-1],
                   "bytecode::program::Code::labels" in names and "bytecode::program::Code::label_addresses" in names, loc(hb), "derivation inputs present")
+    # program frame: the pool and the globals are kept as read / written
+    from ..layout_scheme import run as lrun
+    for role, args in (("program.from_bytes", [("var", "input")]), ("program.serialize", [("var", "self"), ("var", "sink")])):
+        try:
+            ex, paths = lrun(fx, A.get(role), args)
+        except Exception as e:
+            ck.ob("R3.reload", "%s keeps sequences intact" % role, False, "", "cannot extract (unprovable): %s" % e)
+            continue
+        bad = set()
+        for p in paths or []:
+            if p["out"][0] == "val" and p["out"][1][0] == "ctor":
+                # `labels` is a name -> address map by design; every other field is a sequence / index
+                bad |= {h for k, v in p["out"][1][3] if k != "labels" for h in L.REORDERING if L._has_head(v, h)}
+            for e in p["eff"]:
+                bad |= {h for h in L.REORDERING if L._has_head(e, h)}
+        ck.ob("R3.reload", "%s keeps sequences intact" % role, not bad, "", "no reordering / deduplicating collection on the path" if not bad else
+              "a sequence passes through %s: order / multiplicity of its elements is not preserved" % "/".join(sorted(bad)))
     # loader: Method arm appends the opcodes read, in order, and records (old length, count)
     rv, err = L.reader_variants(fx, "constant.from_bytes", L.PO)
     ok = False
